@@ -332,6 +332,10 @@ func ghostSort(t string) string {
 	case strings.HasPrefix(t, "seq["):
 		inner := t[4 : len(t)-1]
 		return SArr(SInt, ghostSort(inner))
+	case strings.HasPrefix(t, "slice["):
+		// a ghost copy of a Go slice value (held as a *SliceVal)
+		inner := t[6 : len(t)-1]
+		return "slice:" + ghostSort(inner)
 	}
 	panic("unknown ghost type " + t)
 }
@@ -550,7 +554,17 @@ func (e *Env) evalCall(x *ast.CallExpr) Value {
 		}
 		fname := "pure." + sanitize(name) + ".0"
 		e.S.X.Ctx.DeclareFunc(fname, sorts, SInt)
-		return S(App(fname, SInt, ts...))
+		pt := App(fname, SInt, ts...)
+		// same typing fact pureResult assumes at call sites: identities and lengths are non-negative
+		e.Side = append(e.Side, Ge(pt, IntLit(0)))
+		return S(pt)
+	case "addr0", "addr1", "addr2", "addr3", "addr4", "addr5":
+		// addrN(ref): the interior pointer to field N of object ref, as passed to pure
+		// library accessors (see pureResult)
+		need(1)
+		name := "addr." + fn.Name[4:]
+		e.S.X.Ctx.DeclareFunc(name, []string{SInt}, SInt)
+		return S(App(name, SInt, e.term(args[0])))
 	case "evcount":
 		// evcount("kind", "name"): number of matching events on the path
 		need(2)
